@@ -37,6 +37,10 @@ ModelVerdict(ev) ==
                THEN LET hi == IF ev.op.pair > ev.op.i THEN ev.op.pair ELSE ev.op.i
                         lo == IF ev.op.pair > ev.op.i THEN ev.op.i ELSE ev.op.pair
                     IN Flat(DeleteAt(DeleteAt(ev.pre, hi), lo))
+               (* strip_tags on an inline element whose own tag is stripped: whether the new paragraph takes the element's tail *)
+               (* along is not settled by the property - both are accepted, every character INSIDE must be there               *)
+               ELSE IF ev.op.op = "strip_self" /\ ev.pre[ev.op.i].k = "o" /\ ev.pre[ev.op.i].tag = ev.op.tag
+               THEN Flat(StripSelf(ev.pre, ev.op.i, ev.op.tag, FALSE))
                ELSE want
     IN  (IF Flat(ev.post) \notin {want, alt} THEN {"differs-from-model"} ELSE {})
    \cup (IF ev.op.op \in Inserting /\ Vis(ev.post) # Vis(ev.pre) THEN {"text-altered"} ELSE {})
